@@ -23,3 +23,20 @@ package nom
 //@   requires ab != nil
 //@   ensures result == abHashOf(ab)
 //@   modifies nothing
+
+// ---- C20: the momentum content is sorted by a comparator that orders headers by their 60-byte image -------------------------
+// On headers with pairwise distinct images the relation is total, antisymmetric and transitive, so the sorted content is
+// unique whatever order the pool's map iteration delivered the blocks in. (The comparator uses <=, so it is not a strict
+// weak order; that is harmless exactly because equal images mean identical headers.)
+//@ lemma header_comparer_order
+//@   vars list []*types.AccountHeader, a int, b int, c int
+//@   assume 0 <= a && a < len(list) && 0 <= b && b < len(list) && 0 <= c && c < len(list)
+//@   assume list[a] != nil && list[b] != nil && list[c] != nil
+//@   let less = AccountBlockHeaderComparer(list)
+//@   let ab = less(a, b)
+//@   let ba = less(b, a)
+//@   let bc = less(b, c)
+//@   let ac = less(a, c)
+//@   assert[total] ab || ba
+//@   assert[antisymmetric] ab && ba ==> bytescmpv(types.headerBytes(list[a].Address, list[a].Height, list[a].Hash), types.headerBytes(list[b].Address, list[b].Height, list[b].Hash)) == 0
+//@   assert[transitive] ab && bc ==> ac
